@@ -43,6 +43,7 @@ type runOut struct {
 	Points   []pointOut `json:"points"`
 	Panics   []string   `json:"panics,omitempty"`
 	Diverged string     `json:"diverged,omitempty"`
+	Deadlock string     `json:"deadlock,omitempty"`
 	CapHit   bool       `json:"capHit,omitempty"`
 	Changed  []int      `json:"changed,omitempty"` // roots whose hash differs after the run
 	Shared   int64      `json:"shared"`
@@ -144,7 +145,7 @@ func main() {
 			}
 			c := zzrt.Run(bodies, zzrt.Config{Prefix: r.Prefix, Interesting: interesting, MaxPoints: r.MaxPoints})
 			after := zzrt.HashRoots()
-			o := runOut{Results: results, Panics: c.Panics(), Diverged: c.Diverged, CapHit: c.CapHit, Shared: c.SharedStmts}
+			o := runOut{Results: results, Panics: c.Panics(), Diverged: c.Diverged, Deadlock: c.Deadlock, CapHit: c.CapHit, Shared: c.SharedStmts}
 			for i := range after {
 				if after[i] != before[i] {
 					o.Changed = append(o.Changed, i)
